@@ -451,8 +451,16 @@ func flushLog() {
 			case v := <-logQueue:
 				v.writer.Write(v.value)
 			case <-syncDone.Done():
-				asyncCancel()
-				return
+				// entries logged before the flush request may still be queued: write them first
+				for {
+					select {
+					case v := <-logQueue:
+						v.writer.Write(v.value)
+					default:
+						asyncCancel()
+						return
+					}
+				}
 			}
 		}
 	}
